@@ -23,6 +23,8 @@
 
 #include <SQuIDS/SUNalg.h>
 #include <algorithm>
+#include <limits>
+#include <vector>
 
 #include <ostream>
 #include <complex>
@@ -472,6 +474,56 @@ SU_vector SU_vector::UDaggerTransform(gsl_matrix_complex* em) const{
 }
 
 
+namespace{
+//Cyclic Jacobi diagonalisation of a Hermitian matrix: slower than the QR based solver but
+//made of plane rotations only, so it cannot overflow or divide by a vanishing column.
+//On return the diagonal of a holds the eigenvalues and the columns of v the eigenvectors.
+void hermitian_jacobi(std::vector<std::complex<double> >& a, std::vector<std::complex<double> >& v, unsigned int n){
+  typedef std::complex<double> cd;
+  for(unsigned int i=0; i<n; i++)
+    for(unsigned int j=0; j<n; j++)
+      v[i*n+j]=(i==j ? 1. : 0.);
+  for(unsigned int sweep=0; sweep<64; sweep++){
+    double off=0, diag=0;
+    for(unsigned int i=0; i<n; i++){
+      diag+=std::norm(a[i*n+i]);
+      for(unsigned int j=i+1; j<n; j++)
+        off+=std::norm(a[i*n+j]);
+    }
+    if(off==0 || off<=1e-34*diag)
+      break;
+    for(unsigned int p=0; p+1<n; p++){
+      for(unsigned int q=p+1; q<n; q++){
+        const double g=std::abs(a[p*n+q]);
+        if(g==0)
+          continue;
+        const cd phase=a[p*n+q]/g; //a_pq = g*phase
+        const double tau=(a[q*n+q].real()-a[p*n+p].real())/(2*g);
+        const double t=(tau>=0 ? 1. : -1.)/(std::abs(tau)+std::sqrt(1+tau*tau));
+        const double c=1/std::sqrt(1+t*t), s=t*c;
+        //columns: a <- a J with J_pp=c, J_qq=c, J_pq=s*phase, J_qp=-s*conj(phase)
+        for(unsigned int k=0; k<n; k++){
+          const cd akp=a[k*n+p], akq=a[k*n+q];
+          a[k*n+p]=c*akp-s*std::conj(phase)*akq;
+          a[k*n+q]=s*phase*akp+c*akq;
+          const cd vkp=v[k*n+p], vkq=v[k*n+q];
+          v[k*n+p]=c*vkp-s*std::conj(phase)*vkq;
+          v[k*n+q]=s*phase*vkp+c*vkq;
+        }
+        //rows: a <- J^dagger a
+        for(unsigned int k=0; k<n; k++){
+          const cd apk=a[p*n+k], aqk=a[q*n+k];
+          a[p*n+k]=c*apk-s*phase*aqk;
+          a[q*n+k]=s*std::conj(phase)*apk+c*aqk;
+        }
+        a[p*n+q]=0; a[q*n+p]=0;
+        a[p*n+p]=a[p*n+p].real(); a[q*n+q]=a[q*n+q].real();
+      }
+    }
+  }
+}
+}
+
 std::pair<std::unique_ptr<gsl_vector,void (*)(gsl_vector*)>,
 std::unique_ptr<gsl_matrix_complex,void (*)(gsl_matrix_complex*)>>
 SU_vector::GetEigenSystem(bool order) const{
@@ -517,8 +569,53 @@ SU_vector::GetEigenSystem(bool order) const{
       }
     }
     gsl_eigen_hermv_workspace * ws = gsl_eigen_hermv_alloc(dim);
+    //gsl_eigen_hermv destroys its argument
+    std::vector<std::complex<double> > kept(dim*dim);
+    for(unsigned int i=0; i<dim; i++)
+      for(unsigned int j=0; j<dim; j++){
+        gsl_complex z=gsl_matrix_complex_get(matrix.get(),i,j);
+        kept[i*dim+j]=std::complex<double>(GSL_REAL(z),GSL_IMAG(z));
+      }
     gsl_eigen_hermv(matrix.get(),eigenvalues,eigenvectors,ws);
     gsl_eigen_hermv_free(ws);
+    //Even for a well scaled matrix the tridiagonalisation inside gsl_eigen_hermv can fail: where an
+    //entry of a reduced column should vanish (block structure, uncoupled levels) a rounding residue
+    //remains, every further Householder step squares it, and in dimension 6 the last column can
+    //become subnormal. Its inverse then overflows and the whole result is NaN, or loses most of
+    //its digits and the result is finite but neither unitary nor a decomposition of the matrix.
+    //So the result is checked (the matrix is of order one here, which makes absolute bounds
+    //meaningful), and if it does not hold up the system is solved with Jacobi rotations instead,
+    //which need no such inverse.
+    bool finite=true;
+    {
+      const double bound=64*dim*std::numeric_limits<double>::epsilon();
+      for(unsigned int i=0; i<dim && finite; i++){
+        for(unsigned int j=0; j<dim && finite; j++){
+          std::complex<double> residual(0,0), overlap(0,0);
+          for(unsigned int k=0; k<dim; k++){
+            gsl_complex vkj=gsl_matrix_complex_get(eigenvectors,k,j);
+            gsl_complex vki=gsl_matrix_complex_get(eigenvectors,k,i);
+            const std::complex<double> ckj(GSL_REAL(vkj),GSL_IMAG(vkj)), cki(GSL_REAL(vki),GSL_IMAG(vki));
+            residual+=kept[i*dim+k]*ckj;
+            overlap+=std::conj(cki)*ckj;
+          }
+          gsl_complex vij=gsl_matrix_complex_get(eigenvectors,i,j);
+          residual-=std::complex<double>(GSL_REAL(vij),GSL_IMAG(vij))*gsl_vector_get(eigenvalues,j);
+          overlap-=(i==j ? 1. : 0.);
+          //(written so that NaN fails the test)
+          finite=(std::abs(residual)<=bound) && (std::abs(overlap)<=bound);
+        }
+      }
+    }
+    if(!finite){
+      std::vector<std::complex<double> > vecs(dim*dim);
+      hermitian_jacobi(kept,vecs,dim);
+      for(unsigned int i=0; i<dim; i++){
+        gsl_vector_set(eigenvalues,i,kept[i*dim+i].real());
+        for(unsigned int j=0; j<dim; j++)
+          gsl_matrix_complex_set(eigenvectors,i,j,gsl_complex_rect(vecs[i*dim+j].real(),vecs[i*dim+j].imag()));
+      }
+    }
     if(exponent!=0){
       for(unsigned int i=0; i<dim; i++)
         gsl_vector_set(eigenvalues,i,std::ldexp(gsl_vector_get(eigenvalues,i),exponent));
